@@ -67,6 +67,10 @@ impl Case {
                 };
             }
             s += &format!("{ind}  Examples:\n");
+            if t.cols.is_empty() {
+                // an `Examples:` block without any table
+                continue;
+            }
             s += &format!("{ind}    | {} |\n", t.cols.join(" | "));
             for r in &t.rows {
                 s += &format!("{ind}    | {} |\n", r.join(" | "));
@@ -287,6 +291,10 @@ pub fn cases(thorough: bool) -> Vec<Case> {
             tables.push(vec![mk(tagged, vec!["b", "a"], vec![vec![v, "k"]])]);
         }
     }
+    // a block without a table: alone, before and after a block with rows
+    tables.push(vec![mk(false, vec![], vec![])]);
+    tables.push(vec![mk(true, vec![], vec![]), mk(false, vec!["a", "b"], vec![vec!["1", "2"], vec!["3", "4"]])]);
+    tables.push(vec![mk(false, vec!["a", "b"], vec![vec!["1", "2"]]), mk(false, vec![], vec![]), mk(true, vec!["b", "a"], vec![vec!["5", "6"]])]);
     // two tables
     for v in if thorough { &VALUES[..] } else { &VALUES[..3] } {
         tables.push(vec![
